@@ -1,6 +1,7 @@
 //! Correspondence harness: runs the real rustyline code on generated requests and prints
 //! `request<TAB>observation` lines (preceded by the `charinfo` lines the request needs).
 mod common;
+mod direct;
 mod ed;
 mod hist;
 mod keys;
@@ -21,8 +22,9 @@ fn exec_line(req: &str) -> String {
     let f: Vec<&str> = req.split(' ').collect();
     let r = catch_unwind(AssertUnwindSafe(|| match f.first().copied() {
         Some("hist") => hist::exec(&f[1..]),
-        Some("ed") => ed::exec(&f[1..]),
+        Some(t) if t.starts_with("ed") => ed::exec(&f[1..]),
         Some("keys") => keys::exec(&f[1..]),
+        Some(t @ ("direct" | "seg")) => direct::exec(t, &f[1..]),
         _ => None,
     }));
     match r {
@@ -88,12 +90,22 @@ fn main() {
             match target.as_str() {
                 "hist" => hist::gen(&ctx, &mut sink),
                 "ed" => ed::gen(&ctx, &mut sink),
+                "ed13" => ed::gen_profile(&ctx, "ed13", ed::Profile::Validator, &mut sink),
+                "ed17" => ed::gen_profile(&ctx, "ed17", ed::Profile::Malformed, &mut sink),
                 "keys" => keys::gen(&ctx, &mut sink),
+                "direct" => direct::gen_direct(&ctx, &mut sink),
+                "seg" => direct::gen_seg(&ctx, &mut sink),
                 _ => {
                     eprintln!("unknown target");
                     std::process::exit(2)
                 }
             }
+        }
+        // hidden: the child of target `direct` (stdin is the pipe under test)
+        Some("direct-child") => {
+            drop(out);
+            direct::child(&args[2..]);
+            return;
         }
         Some("exec") => {
             for line in std::io::BufReader::new(proto_in).lines() {
